@@ -366,6 +366,61 @@ package iam
 //@        && arg(call (storage.SessionStore).GetAndDelete #1, 1) == request.Id && ro.RequestURIMethod == "get"
 //@   ensures [object-only-after-signing] isNilIface(result.1) ==> did(call (JAR).Sign #1) && isNilIface(ret(call (JAR).Sign #1).1)
 
+//@ func staticAuthorizationServerMetadata
+//@   trusted
+//@   benign
+//@ func (Wrapper).RequestJWTByPost
+//@   prop C05
+//@   nullable request.Body
+//@   call (JAR).Sign #1 requires [request-object-taken-by-this-request] isNilIface(ret(call (storage.SessionStore).GetAndDelete #1))
+//@        && arg(call (storage.SessionStore).GetAndDelete #1, 1) == request.Id && ro.RequestURIMethod == "post"
+//@        && arg(call (storage.SessionStore).GetAndDelete #1, 0) == ret(call (Wrapper).authzRequestObjectStore #1)
+//@        && ro.Client == ret(call (*url.URL).String #1)
+//@   ensures [object-only-after-signing] isNilIface(result.1) ==> did(call (JAR).Sign #1) && isNilIface(ret(call (JAR).Sign #1).1)
+
+// The redirect token of the user flow is taken out of the store before anything is done with it:
+// without a token or with an unknown / already used one, the answer is 403 and nothing else happens.
+//@ func (v4.Context).QueryParam
+//@   trusted
+//@   benign
+//@ func (v4.Context).NoContent
+//@   trusted
+//@   benign
+//@ func (v4.Context).Request
+//@   trusted
+//@   benign
+//@ func user.GetSession
+//@   trusted
+//@   benign
+//@ func (*http.Request).Context
+//@   trusted
+//@   benign
+//@ func (v4.Context).Redirect
+//@   trusted
+//@   benign
+//@ func (Wrapper).createAuthorizationRequest
+//@   trusted
+//@   benign
+//@ func (Wrapper).provisionUserSession
+//@   trusted
+//@   benign
+//@ func (iam.Client).AuthorizationServerMetadata
+//@   trusted
+//@   benign
+//@ func generatePKCEParams
+//@   trusted
+//@   benign
+//@ func (Wrapper).userRedirectStore
+//@   prop C05
+//@   assume-benign
+//@   ensures !isNilIface(result)
+//@ func (Wrapper).handleUserLanding
+//@   prop C05
+//@   call user.GetSession #1 requires [redirect-token-taken-by-this-request] isNilIface(ret(call (storage.SessionStore).GetAndDelete #1))
+//@        && arg(call (storage.SessionStore).GetAndDelete #1, 1) == ret(call (v4.Context).QueryParam #1) && ret(call (v4.Context).QueryParam #1) != ""
+//@        && arg(call (v4.Context).QueryParam #1, 1) == "token" && arg(call (storage.SessionStore).GetAndDelete #1, 0) == ret(call (Wrapper).userRedirectStore #1)
+//@   ensures [nothing-without-the-token] !did(call user.GetSession #1) ==> did(call (v4.Context).NoContent #1) || did(call (v4.Context).NoContent #2)
+
 // A DPoP proof is reported valid only if its jti was not in the store, and the jti is stored before
 // "valid" is reported. The look-up and the store are two separate operations (clause
 // check-and-mark-are-one-step fails on the pinned tree: known finding).
